@@ -149,7 +149,7 @@ def build(shape):
         return ('cross', (_syn0(5, 1) + _syn0(4, 2)).binary() if 'corral' in shape else _env_for('sim'), [_learners()[shape[2:]](), RandomLearner(seed=3)], SequentialCB(record=['reward', 'action', 'probability']))
     if shape.startswith('V:'):
         val, kind = _evaluators()[shape[2:]]()
-        lrns = [RandomLearner(seed=3), PmfLearner()] if kind == 'igl' else [BanditEpsilonLearner(0.3, seed=6), PmfLearner()]
+        lrns = [RandomLearner(seed=3), PmfLearner()] if kind == 'igl' else [BanditEpsilonLearner(0.3, seed=6), BanditUCBLearner(seed=4) if kind.startswith('log') else PmfLearner()]
         return ('cross', _env_for(kind), lrns, val)
     raise ValueError(shape)
 
@@ -215,6 +215,8 @@ PIPES = {
     'flatten':        lambda: (_syn(5, 1).flatten(), 'cb'),
     'materialize':    lambda: (_syn(5, 1).shuffle(seed=3).materialize(), 'cb'),
     'batch':          lambda: (_syn(6, 1).batch(2), 'cb'),
+    'mixed-batch':    lambda: (_syn(6, 1) + _syn(6, 2).batch(3), 'cb'),      # one learner class on unbatched AND batched environments, either order
+    'mixed-batch-2':  lambda: (_syn(6, 2).batch(2) + _syn(6, 1), 'cb'),
     'unbatch':        lambda: (_syn(6, 1).batch(3).unbatch(), 'cb'),
     'where':          lambda: ((_syn(5, 1) + _syn(3, 2)).where(n_interactions=(4, None)), 'cb'),
     'binary':         lambda: (_syn(5, 1).binary(), 'cb'),
@@ -265,6 +267,9 @@ def _evaluators():
         'cb-ips-on':     lambda: (SequentialCB(learn='ips', eval='on', seed=8), 'log'),
         'reject-seed':   lambda: (RejectionCB(record=['context', 'actions', 'action', 'reward', 'probability'], cpct=.1, cmax=.9, cinit=.5, seed=3), 'log'),
         'reject-dflt':   lambda: (RejectionCB(), 'log'),
+        'reject-dflt-2': lambda: (RejectionCB(record=['reward', 'probability']), 'log2'),
+        # the data-adaptive start value only matters until the first acceptance: several evaluator seeds = several first draws
+        **{f'reject-s{k}': (lambda k=k: (RejectionCB(seed=k), 'log')) for k in (1, 2, 3, 4, 5, 6)},
         'igl-seed':      lambda: (SequentialIGL(record=['reward', 'feedback', 'prob', 'action'], seed=6), 'igl'),
         'summary':       lambda: (SummaryEvaluator(), 'sim'),
         'counting':      lambda: (CountingEvaluator('z'), 'sim'),
@@ -277,6 +282,10 @@ EVALUATORS = list(_evaluators())
 
 def _env_for(kind):
     if kind == 'sim': return _syn(5, 1) + _syn0(4, 2)
-    if kind == 'log': return _logged(7, 3) + _syn(6, 2).logged(BanditEpsilonLearner(0.5, seed=2), seed=4)
+    # two logged environments whose logging policies have DIFFERENT smallest probabilities (1/3 vs 1/6), in both orders: whatever an evaluator
+    # object derives from the data of one evaluation must not reach the next evaluation in the same process
+    # (fixed one-hot actions, so that the bandit learners really learn and the logged probabilities vary)
+    if kind == 'log': return _syn0(12, 2).logged(BanditEpsilonLearner(0.5, seed=2), seed=4) + _syn0(12, 3).logged(RandomLearner(seed=5), seed=2.5)
+    if kind == 'log2': return _syn0(12, 3).logged(RandomLearner(seed=5), seed=2.5) + _syn0(12, 2).logged(BanditEpsilonLearner(0.5, seed=2), seed=4)
     if kind == 'igl': return _syn0(6, 1).binary().grounded(4, 2, 5, 2, seed=3)
     raise ValueError(kind)
